@@ -170,7 +170,8 @@ Proof.
   destruct (opt1 15 3 4 l3) as [ow l4] eqn:H4.
   destruct (opt1 48 3 4 l4) as [ob l5] eqn:H5.
   destruct (opt1 49 3 4 l5) as [oe l6] eqn:H6.
-  destruct (take_xy l6) as [[pts l7]|] eqn:H7; [|discriminate].
+  destruct (width_ok ow) eqn:Hwok; [|discriminate].
+  destruct (take_xy1 l6) as [[pts l7]|] eqn:H7x; [|discriminate]. pose proof (take_xy1_some _ _ H7x) as H7.
   destruct (take_props [] l7) as [prs l8] eqn:H8.
   destruct (take_endel l8) as [l9|] eqn:H9; [|discriminate].
   intros [= <- <-]. cbn [elem_deps].
@@ -194,6 +195,7 @@ Proof.
   { eapply eats_trans1; [apply (eats_sname _ _ Ht18)|]. apply (eats_strans _ _ _ H2). }
   destruct array.
   - destruct (take1 19 2 4 l2) as [[rc l3]|] eqn:H3; [|discriminate].
+    destruct (colrow_ok rc) eqn:Hcr; [|discriminate].
     destruct (take1 16 3 24 l3) as [[rx l4]|] eqn:H4; [|discriminate].
     destruct (take_props [] l4) as [prs l5] eqn:H5.
     destruct (take_endel l5) as [l6|] eqn:H6; [|discriminate].
@@ -219,6 +221,7 @@ Proof.
   destruct (opt1 23 1 2 l2) as [opr l3] eqn:H3.
   destruct (opt1 33 2 2 l3) as [o33 l4] eqn:H4.
   destruct (opt1 15 3 4 l4) as [o15 l5] eqn:H5.
+  destruct (width_ok o15) eqn:Hwok; [|discriminate].
   destruct (take_strans l5) as [[[refl mag] rot] l6] eqn:H6.
   destruct (take1 16 3 8 l6) as [[rx l7]|] eqn:H7; [|discriminate].
   destruct (take_str 25 l7) as [[tx l8]|] eqn:H8; [|discriminate].
@@ -398,6 +401,7 @@ Proof.
   destruct (take1 1 2 24 l0) as [[r1 l1]|] eqn:H1; [|discriminate].
   destruct (take_str 2 l1) as [[nm l2]|] eqn:H2; [|discriminate].
   destruct (take1 3 5 16 (skip_libopt l2)) as [[ru l3]|] eqn:H3; [|discriminate].
+  destruct (units_ok ru) eqn:Huok; [|discriminate].
   destruct (spec_structures (length l3) l3) as [[cs rest]|] eqn:H4; [|discriminate].
   intros [= <-]. cbn [g_cells].
   destruct (take1_some _ _ _ _ _ _ H0) as (-> & Ht0 & _).
@@ -422,7 +426,7 @@ Proof.
     destruct (skip_libopt_loc l2) as (lo' & Hlo' & Hbl). rewrite Hl in Hlo'.
     assert (Elo : lo' = lo) by (apply (app_inv_tail (ru :: l3)); rewrite <- Hlo', <- Hlo; reflexivity). subst lo'.
     rewrite Hl in Hbl. rewrite (Hbl (ru :: concat blks' ++ [r4]) (sh_cons _ _ _)).
-    destruct (take1_loc _ _ _ _ _ _ H3) as [_ Hb3]. rewrite Hb3.
+    destruct (take1_loc _ _ _ _ _ _ H3) as [_ Hb3]. rewrite Hb3, Huok.
     rewrite (transplant_structures_lemma blks' cs' r4 [] HF' Ht4).
     - reflexivity.
     - rewrite app_length. cbn [length]. pose proof (block_length_pos _ _ HF'). lia. }
@@ -597,6 +601,15 @@ Proof.
   exists hdr, blocks, r4, rest. split; [exact Hl|]. split; [exact Hlen|]. intros idx Hi.
   apply Htr. apply Forall2_pick; assumption.
 Qed.
+
+(* the in-place resolution of read_rawcells: SNAMEs A A B C leave the dependencies in the order A C B (the repeat is
+   removed by moving the last item into its slot); a stable removal would give A B C.  Same members either way. *)
+Example resolve_swap_order :
+  let m := [([65], 0%nat); ([66], 1%nat); ([67], 2%nat)] in
+  resolve m [[65]; [65]; [66]; [67]] [] false = ([0; 2; 1]%nat, false) /\
+  resolve_ordered m [[65]; [65]; [66]; [67]] [] false = ([0; 1; 2]%nat, false) /\
+  resolve m [[65]; [88]; [66]; [67]] [] false = ([0; 2; 1]%nat, true).
+Proof. vm_compute. repeat split; reflexivity. Qed.
 
 Print Assumptions rawcells_agree_lemma.
 Print Assumptions rawcells_transplant_lemma.
